@@ -150,6 +150,10 @@ fn data_terms() -> (Vec<ST>, Vec<ST>, Vec<ST>) {
         lit_dt("true", &format!("{XSD}boolean")), lit_dt("false", &format!("{XSD}boolean")), lit_dt("x", "http://ex/dt"),
         lit_dt("-3", &format!("{XSD}integer")), lit_dt("0", &format!("{XSD}integer")), lit_dt("a\u{e9}\u{1F600}b", &format!("{XSD}string")), lit_dt("Ab", &format!("{XSD}string")),
         lit_lang("a", "en"), lit_lang("\u{e9}a", "fr"), lit_lang("ab", "en"),
+        // dateTimes: other offsets than Z, no timezone (not ordered against a timezoned one within 14 hours), equal instants, ill-formed
+        lit_dt("2020-01-01T10:00:00+05:00", &format!("{XSD}dateTime")), lit_dt("2020-01-01T08:00:00Z", &format!("{XSD}dateTime")), lit_dt("2020-01-01T09:00:00", &format!("{XSD}dateTime")),
+        lit_dt("2019-01-01T00:00:00", &format!("{XSD}dateTime")), lit_dt("2020-01-01T03:00:00-05:00", &format!("{XSD}dateTime")),
+        lit_dt("2020-02-30T00:00:00Z", &format!("{XSD}dateTime")), lit_dt("yesterday", &format!("{XSD}dateTime")),
     ];
     (iris, preds, lits)
 }
